@@ -331,7 +331,10 @@ def install(rec):
         n = int(round(np.log(len(probs)) / np.log(phys_dim)))
         ok = sum(result.values()) == C
         for key in result:
-            ok = ok and len(key) == n and probs[int(key, 2)] > 1e-14
+            try:
+                ok = ok and len(key) == n and probs[int(key, phys_dim)] > 1e-14
+            except (ValueError, IndexError):
+                ok = False
         rec.check("simulate_counts", "support", bool(ok), mech="simulate_counts:support",
                   detail={"C": C, "keys": list(result)[:5]}, sig=(len(probs), C))
 
@@ -343,6 +346,10 @@ def install(rec):
         rho = rl.as_dop(np.array(rl.dense(p), copy=True))
         if len(dims) > 2:
             rho = rl.ptrace(rho, dims, (sysa, sysb))
+        if sysa > sysb:
+            # A is the first named subsystem, B (the measured one) the second,
+            # whatever their position: the reduced state above is position ordered
+            rho = rho.reshape(2, 2, 2, 2).transpose(1, 0, 3, 2).reshape(4, 4)
         iab = S(rl.ptrace(rho, [2, 2], [0])) + S(rl.ptrace(rho, [2, 2], [1])) - S(rho)
         sa = S(rl.ptrace(rho, [2, 2], [0]))
         best = np.inf
@@ -564,7 +571,10 @@ def wl_two_qubit(rng, rec, tier):
         rec.check("relation", "product_state_unentangled", c <= 1e-6,
                   mech="relation:product_state_unentangled", detail=dict(desc, c=c))
     if tier == "thorough" or rng.random() < 0.15:
-        gen.attempt(qu.quantum_discord, p)
+        if rng.random() < 0.5:
+            gen.attempt(qu.quantum_discord, p)
+        else:
+            gen.attempt(qu.quantum_discord, p, (2, 2), 1, 0)     # measure the first qubit
     # local unitary invariance of concurrence
     U = np.kron(rand_unitary(rng, 2), rand_unitary(rng, 2))
     st2 = U @ st if st.ndim == 1 or 1 in st.shape else U @ st @ U.conj().T
@@ -659,6 +669,27 @@ def wl_maps(rng, rec, tier):
         v = v / np.linalg.norm(v)
         gen.attempt(qu.simulate_counts, qu.qu(v), int(rng.integers(1, 200)),
                     seed=int(rng.integers(1 << 30)))
+    # ... and on qutrits / ququarts
+    dloc = int(gen.choice(rng, [3, 4]))
+    nq = int(rng.integers(1, 4))
+    v = rand_state(rng, dloc ** nq, "pure")
+    v[rng.random(v.shape) < 0.5] = 0
+    if np.linalg.norm(v) > 0:
+        v = v / np.linalg.norm(v)
+        gen.attempt(qu.simulate_counts, qu.qu(v), int(rng.integers(1, 100)), phys_dim=dloc,
+                    seed=int(rng.integers(1 << 30)))
+    # dephasing with a random diagonal of a given rank: an integer is a count
+    dd = int(gen.choice(rng, [2, 3, 4]))
+    rho_ = qu.qu(rand_state(rng, dd, "mixed"))
+    rk = int(rng.integers(1, dd + 1))
+    out = gen.attempt2(qu.dephase, rho_, 1.0, rand_rank=rk)
+    if out is not gen.REJECTED:
+        o = np.asarray(out)
+        off = float(np.abs(o - np.diag(np.diag(o))).max())
+        nz = int(np.sum(np.abs(np.diag(o)) > 1e-12))
+        rec.check("dephase", "rand_rank", off <= 1e-12 and nz == rk and abs(np.trace(o) - 1) <= 1e-9,
+                  mech="dephase:rand_rank:integer_count_not_honoured", detail={"d": dd, "rand_rank": rk, "nonzero": nz},
+                  sig=("dephase_rank", dd, rk))
     return desc
 
 
